@@ -354,3 +354,152 @@ example : parseCell (Str.ofString "1h30m") = .ok 5400000000000 := by decide
 example : parseCell (Str.ofString "12") = .err := by decide
 
 end TableauVerif.Props.C20Dur
+
+namespace TableauVerif.Props.C20Dur
+open TableauVerif TableauVerif.Model.Duration TableauVerif.Model.Literal
+
+/-! ### must-reject: a character that no duration spelling uses -/
+
+/-- characters of Go duration syntax: digits, the letters of the units, '.', and the sign characters -/
+def durCh (c : Nat) : Bool :=
+  Str.isDigit c || c == 104 || c == 109 || c == 115 || c == 117 || c == 110 || c == 181 || c == 956 || c == 46 || c == 43 || c == 45
+
+theorem leadingInt_suffix : ∀ (s : Str) (x v : Nat) (rest : Str), leadingInt s x = some (v, rest) →
+    ∃ ds, s = ds ++ rest ∧ ∀ c ∈ ds, Str.isDigit c = true := by
+  intro s
+  induction s with
+  | nil => intro x v rest h; simp [leadingInt] at h; exact ⟨[], by simp [h.2], by simp⟩
+  | cons c cs ih =>
+    intro x v rest h
+    unfold leadingInt at h
+    by_cases hd : Str.isDigit c = true
+    · simp only [hd, if_true] at h
+      split at h
+      · simp at h
+      · split at h
+        · simp at h
+        · obtain ⟨ds, h1, h2⟩ := ih _ _ _ h
+          exact ⟨c :: ds, by simp [h1], fun y hy => by
+            simp at hy; rcases hy with rfl | hy
+            · exact hd
+            · exact h2 y hy⟩
+    · simp only [hd, Bool.false_eq_true, if_false, Option.some.injEq, Prod.mk.injEq] at h
+      exact ⟨[], by simp [h.2], by simp⟩
+
+theorem unitSpan_split : ∀ (s : Str), (unitSpan s).1 ++ (unitSpan s).2 = s := by
+  intro s
+  induction s with
+  | nil => rfl
+  | cons c cs ih =>
+    unfold unitSpan
+    split
+    · rfl
+    · simp [ih]
+
+theorem unitOf_good (u : Str) (unit : Nat) (h : unitOf u = some unit) : ∀ c ∈ u, durCh c = true := by
+  unfold unitOf at h
+  intro c hc
+  repeat' split at h
+  all_goals (try (rename_i hu; simp at hu; subst hu; simp at hc; rcases hc with rfl | rfl <;> decide))
+  all_goals (try (rename_i hu; simp at hu; subst hu; simp at hc; subst hc; decide))
+  all_goals (simp at h)
+
+theorem digit_good (c : Nat) (h : Str.isDigit c = true) : durCh c = true := by simp [durCh, h]
+
+/-- a character outside Go duration syntax anywhere in the text makes the segment loop fail -/
+theorem segments_bad (fuel : Nat) : ∀ (s : Str) (d : Nat), s.length < fuel → (∃ c ∈ s, durCh c = false) →
+    segments fuel s d = none := by
+  induction fuel with
+  | zero => intro s d h; omega
+  | succ fuel ih =>
+    intro s d hlen hbad
+    cases s with
+    | nil => obtain ⟨c, hc, _⟩ := hbad; simp at hc
+    | cons c cs =>
+      rw [segments]
+      by_cases hfirst : (c == 46 || Str.isDigit c) = true
+      · simp only [hfirst, Bool.not_true, Bool.false_eq_true, if_false]
+        cases hli : leadingInt (c :: cs) 0 with
+        | none => rfl
+        | some p =>
+          obtain ⟨v, rest⟩ := p
+          simp only []
+          obtain ⟨ds, hsplit, hds⟩ := leadingInt_suffix _ _ _ _ hli
+          by_cases hl : (rest.length == (c :: cs).length) = true
+          · rw [if_pos hl]
+          · rw [if_neg hl]
+            have hspan := unitSpan_split rest
+            cases hus : unitSpan rest with
+            | mk u rest' =>
+              rw [hus] at hspan
+              simp only [] at hspan ⊢
+              by_cases hue : u.isEmpty = true
+              · simp [hue]
+              · simp only [hue, Bool.false_eq_true, if_false]
+                cases huo : unitOf u with
+                | none => rfl
+                | some unit =>
+                  simp only []
+                  split
+                  · rfl
+                  · split
+                    · rfl
+                    · apply ih
+                      · have h1 : rest.length ≤ cs.length + 1 := by
+                          have := congrArg List.length hsplit
+                          simp only [List.length_cons, List.length_append] at this; omega
+                        have h2 : rest'.length < rest.length := by
+                          have := congrArg List.length hspan
+                          have hu1 : 0 < u.length := by cases u <;> simp_all
+                          simp only [List.length_append] at this; omega
+                        simp only [List.length_cons] at hlen; omega
+                      · obtain ⟨b, hb, hbb⟩ := hbad
+                        rw [hsplit] at hb
+                        rcases List.mem_append.mp hb with h1 | h1
+                        · have := digit_good b (hds b h1); rw [this] at hbb; simp at hbb
+                        · rw [← hspan] at h1
+                          rcases List.mem_append.mp h1 with h2 | h2
+                          · have := unitOf_good u unit huo b h2; rw [this] at hbb; simp at hbb
+                          · exact ⟨b, h2, hbb⟩
+      · simp [hfirst]
+
+/-- **C20_duration_garbage_rejected** (Go syntax): a text without '.' that contains a character outside Go duration
+syntax is rejected by `time.ParseDuration`'s model, wherever the character stands -/
+theorem C20_duration_garbage_rejected (s : Str) (hdot : s.contains 46 = false) (hbad : ∃ c ∈ s, durCh c = false) :
+    parseGo s = .err := by
+  unfold parseGo
+  simp only [hdot, Bool.false_eq_true, if_false]
+  have hbody : ∃ c ∈ (signSplit s).2, durCh c = false := by
+    obtain ⟨b, hb, hbb⟩ := hbad
+    unfold signSplit
+    split
+    · rename_i r
+      simp at hb
+      rcases hb with rfl | hb
+      · simp [durCh, Str.isDigit] at hbb
+      · exact ⟨b, hb, hbb⟩
+    · rename_i r
+      simp at hb
+      rcases hb with rfl | hb
+      · simp [durCh, Str.isDigit] at hbb
+      · exact ⟨b, hb, hbb⟩
+    · exact ⟨b, hb, hbb⟩
+  have hne0 : ((signSplit s).2 == [48]) = false := by
+    cases h : ((signSplit s).2 == [48]) with
+    | false => rfl
+    | true =>
+      have : (signSplit s).2 = [48] := by simpa using h
+      obtain ⟨b, hb, hbb⟩ := hbody
+      rw [this] at hb; simp at hb; subst hb
+      simp [durCh, Str.isDigit] at hbb
+  have hnee : (signSplit s).2.isEmpty = false := by
+    obtain ⟨b, hb, _⟩ := hbody
+    cases h : (signSplit s).2 with
+    | nil => rw [h] at hb; simp at hb
+    | cons _ _ => rfl
+  simp only [hne0, hnee, Bool.false_eq_true, if_false]
+  rw [segments_bad _ _ 0 (by omega) hbody]
+
+example : parseGo (Str.ofString "1h30x") = .err := by decide
+
+end TableauVerif.Props.C20Dur
